@@ -343,7 +343,7 @@ def _balanced_source(ctx, g: Func, v: ast.AST):
             labs = None
             for k in val.keywords:
                 if k.arg == "unbalance_values":
-                    labs = c07._str_consts(k.value)
+                    labs = c07._str_consts(k.value, g)
             extra = {k.arg: unparse(k.value) for k in val.keywords if k.arg in ("min_count", "max_count", "element_key")}
             if labs is None:
                 return None, "%s: unbalance_values is not a list of literals" % nm
